@@ -342,7 +342,7 @@ func (fr *c19Frame) evalIdx(e ast.Expr, idx int) c19Val {
 				if f, ok := base.fields[x.Sel.Name]; ok {
 					return f
 				}
-				return c19Val{kind: "const", s: ""} // field not set in the literal: zero value
+				return c19Opaque(g.Src(x)) // not set in the literal: filled in later (json.Unmarshal, assignments)
 			}
 			if base.kind == "phi" {
 				var alts []c19Val
@@ -418,7 +418,7 @@ func (fr *c19Frame) evalCall(c *ast.CallExpr, idx int) c19Val {
 	switch f := c.Fun.(type) {
 	case *ast.SelectorExpr:
 		if id, ok := f.X.(*ast.Ident); ok && fr.isRecv(id.Name) {
-			callee = fr.p.funcs["Handler."+f.Sel.Name]
+			callee = fr.p.funcs[fr.recvType()+"."+f.Sel.Name]
 			name = f.Sel.Name
 		}
 	case *ast.Ident:
@@ -446,6 +446,14 @@ func (fr *c19Frame) evalCall(c *ast.CallExpr, idx int) c19Val {
 		keep = append(keep, a)
 	}
 	return c19Val{kind: "app", s: name, idx: idx, args: keep}
+}
+
+// recvType: the receiver type name of the function ("Handler" for the httpd methods).
+func (fr *c19Frame) recvType() string {
+	if fr.fd.Recv != nil && len(fr.fd.Recv.List) == 1 {
+		return typeName(fr.fd.Recv.List[0].Type)
+	}
+	return "Handler"
 }
 
 func (fr *c19Frame) isRecv(name string) bool {
@@ -596,6 +604,10 @@ func (fr *c19Frame) walk(fl *c19Flow, visited map[string]bool) {
 			case strings.HasSuffix(fun, ".QueryAuthorizer.AuthorizeQuery") && len(x.Args) == 3:
 				fl.add(&fl.authz, c19End{"db", "query", fname, fr.eval(x.Args[2])})
 				fl.add(&fl.authz, c19End{"q", "query", fname, fr.eval(x.Args[1])})
+			case strings.HasSuffix(fun, ".AuthorizeDatabase") && len(x.Args) == 2:
+				fl.add(&fl.authz, c19End{"db", "database:" + g.Src(x.Args[0]), fname, fr.eval(x.Args[1])})
+			case strings.HasSuffix(fun, ".RecordWriter.RetryWriteRecord") && len(x.Args) > 0:
+				fl.add(&fl.exec, c19End{"db", "RetryWriteRecord#0", fname, fr.eval(x.Args[0])})
 			case strings.HasSuffix(fun, ".WriteAuthorizer.AuthorizeWrite") && len(x.Args) == 2:
 				fl.add(&fl.authz, c19End{"db", "write", fname, fr.eval(x.Args[1])})
 			case strings.HasSuffix(fun, "NewExecutionOptions") && len(x.Args) > 0:
@@ -610,7 +622,7 @@ func (fr *c19Frame) walk(fl *c19Flow, visited map[string]bool) {
 			switch f := x.Fun.(type) {
 			case *ast.SelectorExpr:
 				if id, ok := f.X.(*ast.Ident); ok && fr.isRecv(id.Name) {
-					callee = fr.p.funcs["Handler."+f.Sel.Name]
+					callee = fr.p.funcs[fr.recvType()+"."+f.Sel.Name]
 				}
 			case *ast.Ident:
 				callee = fr.p.funcs[f.Name]
@@ -690,7 +702,41 @@ func genC19Flows(g *Gen, p *c19Pkg, routes []c19Route) {
 		}
 		rows = append(rows, fmt.Sprintf("  ⟨%s, %s, %s⟩", leanStr(fl.handler), leanEnds(fl.authz), leanEnds(fl.exec)))
 	}
+	// entry points that are not routes: exported Handler methods that take the user (the arrow
+	// flight service hands its authenticated user to Handler.HandleQuery), and the flight service's own DoPut
+	var extra []string
+	var keys []string
+	for k := range p.funcs {
+		keys = append(keys, k)
+	}
+	sort.Strings(keys)
+	for _, k := range keys {
+		fd := p.funcs[k]
+		name := strings.TrimPrefix(k, "Handler.")
+		if !strings.HasPrefix(k, "Handler.") || !ast.IsExported(name) || done[name] || fd.Body == nil {
+			continue
+		}
+		if len(userParamIndex(g, p.fileOf[fd], fd)) == 0 {
+			continue
+		}
+		fl := &c19Flow{handler: name, seen: map[string]bool{}}
+		p.frame(fd, nil, 0).walk(fl, map[string]bool{})
+		if len(fl.authz) > 0 || len(fl.exec) > 0 {
+			extra = append(extra, fmt.Sprintf("  ⟨%s, %s, %s⟩", leanStr(fl.handler), leanEnds(fl.authz), leanEnds(fl.exec)))
+		}
+	}
+	if q, err := c19Load(g, "services/arrowflight/"); err == nil {
+		for _, k := range []string{"flightServer.DoPut", "flightServer.DoGet"} {
+			if fd := q.funcs[k]; fd != nil && fd.Body != nil {
+				fl := &c19Flow{handler: "arrowflight." + k, seen: map[string]bool{}}
+				q.frame(fd, nil, 0).walk(fl, map[string]bool{})
+				extra = append(extra, fmt.Sprintf("  ⟨%s, %s, %s⟩", leanStr(fl.handler), leanEnds(fl.authz), leanEnds(fl.exec)))
+			}
+		}
+	}
 	g.P("def dbFlows : List DbFlow := [\n%s\n]\n", strings.Join(rows, ",\n"))
+	g.P("/-- the same for the entry points that are not routes of the mux. -/")
+	g.P("def extraFlows : List DbFlow := [\n%s\n]\n", strings.Join(extra, ",\n"))
 	g.P("/-- handlers that call r.ParseForm() themselves before any FormValue: the fields of a multipart body are then never merged into r.Form. -/")
 	g.StrList("parseFormHandlers", parseForm)
 	// helper functions the flows go through without being resolved: their bodies are pinned
